@@ -88,6 +88,10 @@ def action_to_oracle(a: tuple) -> str:
         return "ACT B"
     if k == "S":
         return f"ACT S {a[1]} {a[2]} {1 if a[3] else 0}"
+    if k in ("P", "U"):
+        return f"ACT {k}"
+    if k == "T":
+        return f"ACT T {a[1]}"
     raise ValueError(a)
 
 
@@ -104,6 +108,9 @@ _MSG_FMT = {
     "CompleteTask": lambda q: f"CompleteTask({q['si']},{q['task']},{q['status']})",
     "JumpToStage": lambda q: f"JumpToStage({q['si']},{q['ti']})",
     "SignalStage": lambda q: f"SignalStage({q['si']},{q['sig']},{1 if q['persistent'] else 0})",
+    "PauseTask": lambda q: f"PauseTask({q['si']},{q['task']})",
+    "ResumeStage": lambda q: f"ResumeStage({q['si']})",
+    "RestartStage": lambda q: f"RestartStage({q['si']})",
 }
 
 
@@ -184,6 +191,16 @@ class Session:
             ref = [x for x, i in self.idx.items() if i == a[1]][0]
             env.signal(ref, f"g{a[2]}", a[3])
             tr.append(self.snap())
+        elif k == "P":
+            env.pause()
+            tr.append(self.snap())
+        elif k == "U":
+            env.unpause()
+            tr.append(self.snap())
+        elif k == "T":
+            ref = [x for x, i in self.idx.items() if i == a[1]][0]
+            env.restart_stage(ref)
+            tr.append(self.snap())
         self.actions.append(a)
         self.traces.append(tr)
         self.results.append(r)
@@ -225,7 +242,7 @@ def parse_oracle(out: str) -> list[list[list[str]]]:
 def diff_session(spec, actions, traces, model_traces) -> dict | None:
     """first disagreement between the real per-commit trace and the model's, or None"""
     for ai, (a, real, model) in enumerate(zip(actions, traces, model_traces)):
-        if a[0] in ("R",):
+        if a[0] in ("R", "U"):
             # recovery: a sweep that pushes nothing performs no commit; compare the state after the action
             real_last = real[-1] if real else None
             model_last = model[-1] if model else None
@@ -444,6 +461,13 @@ def _run_crash(sess: Session, rng: random.Random, case: dict):
 
 def _run_inject(sess: Session, rng: random.Random, case: dict):
     what, at = case["what"], case["at"]
+    st = {"unpaused": False}
+
+    def unpause(s: Session):
+        st["unpaused"] = True
+        s.do(("U",))
+        if case.get("cancel_with_unpause"):
+            s.do(("C",))
 
     def inj(s: Session, step: int):
         if step == at:
@@ -454,9 +478,18 @@ def _run_inject(sess: Session, rng: random.Random, case: dict):
                 s.do(("C",))
             elif what == "signal":
                 s.do(("S", case["stage"], case.get("signame", 1), case.get("persistent", True)))
+            elif what == "pause":
+                s.do(("P",))
+            elif what == "restart":
+                s.do(("T", case["stage"]))
+        if what == "pause" and not st["unpaused"] and case.get("unpause_at") is not None and step == case["unpause_at"]:
+            unpause(s)
         if what == "recover_every":
             s.do(("R",))
     run_policy(sess, rng, case.get("policy", "fifo"), max_steps=case.get("max_steps", 400), inject=inj)
+    if what == "pause" and not st["unpaused"] and case.get("unpause_at") is not None:
+        unpause(sess)
+        run_policy(sess, rng, case.get("policy", "fifo"), max_steps=case.get("max_steps", 400), submit=False)
 
 
 # ------------------------------------------------------------------------------------------------
@@ -526,8 +559,11 @@ def plan(pid: str, tier: str, rng: random.Random) -> list[dict]:
         schedules(list(fam.items()) + rnd, ["fifo", "lifo", "random", "redeliver"], 6 if thorough else 2)
     if pid in ("C01", "C06", "C13"):
         names = list(fam) if thorough else CRASH_QUICK
+        # every commit of the uninterrupted FIFO run is a crash point: measure the runs first
+        probe = run_batch([{"kind": "policy", "policy": "fifo", "seed": 0, "spec": fam[n], "name": n, "max_steps": 200} for n in names])
+        ncommits = {o["case"]["name"]: sum(len(t) for t in o["traces"]) for o in probe}
         for n in names:
-            for at in range(0, 140 if thorough else 70):
+            for at in range(0, min(ncommits.get(n, 100) + 1, 400 if thorough else 160)):
                 add(kind="crash", at=at, spec=fam[n], name=n, drain="fifo")
             if thorough:
                 for at in range(0, 60, 2):
@@ -549,6 +585,24 @@ def plan(pid: str, tier: str, rng: random.Random) -> list[dict]:
             for at in range(0, 40 if thorough else 24):
                 for pol in (("fifo", "random", "lifo") if thorough else ("fifo", "random")):
                     add(kind="inject", what="cancel", at=at, spec=spec, name=n, policy=pol)
+    if pid in ("C06",):
+        for n in (["chain3", "diamond", "multitask", "fail_terminal", "poll", "first_of"] if not thorough else list(fam)):
+            spec = fam[n]
+            for at in range(1, 26 if thorough else 14):
+                for ua in (at + 1, at + 4, None):
+                    for pol in ("fifo", "random"):
+                        add(kind="inject", what="pause", at=at, unpause_at=ua, spec=spec, name=n, policy=pol,
+                            cancel_with_unpause=bool(ua and (at + (ua or 0)) % 3 == 0))
+            for at in range(4, 30 if thorough else 16, 2):
+                for stage in range(min(2, len(spec["stages"]))):
+                    add(kind="inject", what="restart", at=at, stage=stage, spec=spec, name=n, policy="fifo")
+        # pause with parallel branches in flight, then unpause + cancel together, remaining messages in random order
+        par2 = {"stages": [S("A"), S("B", ["A"], tasks=[["ok"], ["ok"]]), S("C", ["A"], tasks=[["ok"]])]}
+        for n, spec in (("par2", par2), ("diamond", fam["diamond"])):
+            for at in range(7, 15):
+                for rep in range(10 if thorough else 4):
+                    add(kind="inject", what="pause", at=at, unpause_at=at + 6, spec=spec, name=n, policy="random",
+                        cancel_with_unpause=True)
     if pid in ("C18",):
         sus = {"suspend": fam["suspend"],
                "suspend2": {"stages": [S("A"), S("B", ["A"], tasks=[["ok"], ["susp", "ok:k1=1"]]), S("C", ["B"])]},
